@@ -345,6 +345,10 @@ func c20Reject(w *W) {
 		{"--pull", "--bind", addr, "--recv-timeout", "soon"},             // not a duration
 		{"--push", "--bind", addr, "--data", "x", "--count", "many"},     // not a number
 		{"--no-such-option"},
+		{"--push", "--bind", addr, "--data", "", "--file", "/etc/hostname"},   // explicitly empty data, then a file
+		{"--push", "--bind", addr, "--data=", "--file", "/etc/hostname"},      // same, = form
+		{"--push", "--bind", addr, "--file", "/etc/hostname", "--data", ""},   // other order
+		{"--push", "--bind", addr, "--file", "/dev/null", "--file", "/etc/hostname"},
 	}
 	i := w.Choose(simrt.SShape, len(cases))
 	args := cases[i]
@@ -367,7 +371,7 @@ func c20Reject(w *W) {
 		return
 	}
 	// nothing was sent: a PULL peer dialling the address gets nothing
-	if i >= 2 && i != 9 {
+	if i >= 2 && i != 9 && i != 10 && i != 11 && i != 12 && i != 13 {
 		_ = peer.Dial(addr)
 		c := w.Do("Recv", func() (interface{}, error) { return peer.Recv() })
 		c.Wait(3 * time.Second)
